@@ -169,6 +169,38 @@ pub fn search(seed: u64, n: u64) {
         stats.case(&format!("teardrop {:?}", p), true);
         check_path(&mut stats, &mut rng_t, &p, "teardrop", 100);
     }
+    // polygons whose sides are ALMOST straight cubics (control points 1e-5 .. 3e-2 of the side length off the chord) and outlines made of
+    // quadratic arcs raised to cubics and written with 5 decimals (the cubic coefficient of the distance polynomial is tiny but not zero):
+    // many query points each, because what goes wrong in the root solving shows on a few rays in a million (own stream)
+    let mut rng_b = Rng(seed ^ 0xB0ED07);
+    for k in 0..(6 + n / 25) {
+        let nv = 3 + rng_b.i(6) as usize;
+        let c = Coord2(rng_b.r(35.0, 65.0), rng_b.r(35.0, 65.0));
+        let a0 = rng_b.r(0.0, std::f64::consts::TAU);
+        let vs: Vec<Coord2> = (0..nv).map(|i| { let a = a0 + std::f64::consts::TAU * (i as f64 + rng_b.r(-0.3, 0.3)) / nv as f64; c + Coord2(a.cos(), a.sin()) * rng_b.r(12.0, 34.0) }).collect();
+        let r5 = |p: Coord2| Coord2((p.0 * 1e5).round() / 1e5, (p.1 * 1e5).round() / 1e5);
+        let quad = k % 2 == 1;
+        let start = if quad { r5(vs[0]) } else { vs[0] };
+        let mut secs = vec![];
+        for i in 0..nv {
+            let (p, q) = (if quad { r5(vs[i]) } else { vs[i] }, if quad { r5(vs[(i + 1) % nv]) } else { vs[(i + 1) % nv] });
+            let d = q - p;
+            let nrm = Coord2(-d.1, d.0);
+            if quad {
+                // a quadratic with its control point up to 15 % of the side length off the chord, raised to a cubic, 5 decimals
+                let m = p + d * 0.5 + nrm * rng_b.r(-0.15, 0.15);
+                secs.push((r5(p + (m - p) * (2.0 / 3.0)), r5(q + (m - q) * (2.0 / 3.0)), q));
+            } else {
+                let bow = |rng: &mut Rng| 10f64.powf(rng.r(-5.0, -1.5)) * if rng.b() { 1.0 } else { -1.0 };
+                secs.push((p + d * (1.0 / 3.0) + nrm * bow(&mut rng_b), p + d * (2.0 / 3.0) + nrm * bow(&mut rng_b), q));
+            }
+        }
+        let path: P = (start, secs);
+        let kind = if quad { "quadratic_sides_5_decimals" } else { "slightly_bowed_sides" };
+        stats.count(&format!("kind.{}", kind));
+        stats.case(&format!("{} {:?}", kind, path), true);
+        check_path(&mut stats, &mut rng_b, &path, kind, 8000);
+    }
     // long thin triangles with a vertex 0.3 .. 1 from the box's max corner: the ray crosses the long edge at 0.01 .. 0.06 degrees (shallow but
     // transversal), 0.1 clear of every vertex
     for _ in 0..(4 + n / 200) {
